@@ -86,6 +86,7 @@ def run(ctx):
                 st = e2e.snap_state(out)
                 check_stats_state(ctx, st, data, biased, "unit", case)
                 for k, c in enumerate(out.clusters):
+                    ctx.count("unit-cluster")
                     rows = [j for j, l in enumerate(labels) if l == k]
                     if len(rows) >= 2 and d >= 2:
                         ctx.mark_nontrivial((i, k))
